@@ -1,25 +1,32 @@
 """C07 Observe client: notifications in freshness order, termination signalled once."""
 
 import ast
+import copy
 import itertools
 
 from ..rulekit import *
 from ..norm import Normalizer, Poly, NormError
 # expression-expansion helpers (reaching definitions + path conditions, literal
 # normal forms, branch pseudo-node queries) are shared with the C05 rules
-from .c05 import (Expander, cond_dnf, holds_at, alts_bool, node_conditions, _neg, _show, pseudo_asserting, pseudo_nodes, canon_chain,
+from .c05 import (entails, alts_bool, _neg, _show, pseudo_asserting, pseudo_nodes, canon, canon_chain,
                   enclosing_loops, _handler_types, _catches_exceptions)
+from ..model import FuncInfo
+from ._kit_c07 import (sem_equiv, sem_implies, forms_of, rename_atoms, write_values, returned_elements, reach_dnf, path_conditions, Undecided,
+                       PathExpander as Expander)
 
 R = Rules(
     "C07",
     explanation=(
         "Structural clauses of the observe client decided on the syntax trees of protocol.py, tokenmanager.py and "
         "numbers/constants.py.  The condition under which Request._run hands a notification to "
-        "ClientObservation.callback is reconstructed from the dominating branch outcomes and the enclosing if "
-        "statements, with the decision variable replaced by its reaching definitions (values as of the "
-        "definition); after removing what holds for the whole observation loop its disjunctive normal form must "
-        "equal RFC 7641 section 3.4 {V1<V2 & V2-V1<2^23} | {V1>V2 & V1-V2>2^23} | {T2 > T1 + 128 s} | {no Observe "
-        "option} for some assignment of the program's values to V1, T1, T2, and those values must be what the "
+        "ClientObservation.callback is reconstructed over all paths from the receipt of the event to every callback "
+        "site (conditions propagated along the CFG and merged at joins, so early returns, continue, nested or "
+        "sequential ifs and flags are the same thing), with every decision variable replaced by its reaching "
+        "definitions (values as of the definition); under what holds for the whole observation loop the union over "
+        "the callback sites must be *equivalent* to RFC 7641 section 3.4 {V1<V2 & V2-V1<2^23} | {V1>V2 & V1-V2>2^23} | "
+        "{T2 > T1 + 128 s} | {no Observe option} for some assignment of the program's values to V1, T1, T2 "
+        "(equivalence decided by evaluating both sides in every cell that the comparisons' thresholds cut out of "
+        "the integer line of each linear form, and for every value of the remaining boolean atoms), and those values must be what the "
         "RFC says (V2 the new notification's Observe value, T2 its arrival time, V1/T1 those of the last "
         "notification accepted, updated exactly under the freshness condition).  Path rules: nothing is "
         "delivered and no event is consumed after observation.error(); last/Observe-less/failed events reach "
@@ -30,7 +37,7 @@ R = Rules(
         "observation in its finally block.  Not decided: what the lossy async iterator delivers under "
         "arbitrary task scheduling."
     ),
-    rule_text="condition reconstruction (dominating guards + reaching definitions) compared as DNF with the RFC 7641 formula; must-pass path rules on per-function CFGs",
+    rule_text="condition reconstruction (path conditions + reaching definitions) compared semantically with the RFC 7641 formula; must-pass path rules on per-function CFGs",
 )
 
 RUN = "protocol.Request._run"
@@ -48,10 +55,144 @@ def _assign_target(cfg, node):
     return None, st
 
 
-def _roles(ctx):
+def _event_fields(ctx):
+    """Field names of the events a Pipe sends into the runner (Pipe.Event is a namedtuple)."""
+    ci = ctx.prog.cls("pipe.Pipe")
+    e = ci.attrs.get("Event")
+    ctx.need(isinstance(e, ast.Call) and (chain(e.func) or "").split(".")[-1] == "namedtuple" and len(e.args) >= 2,
+             "pipe.Pipe.Event is not defined by namedtuple(name, fields)")
+    try:
+        v = norm.consteval(e.args[1])
+    except NormError:
+        v = None
+    if isinstance(v, str):
+        v = tuple(v.replace(",", " ").split())
+    ctx.need(isinstance(v, tuple) and {"message", "exception", "is_last"} <= set(v), "pipe.Pipe.Event has no message / exception / is_last fields")
+    return list(v)
+
+
+class _EventView(ast.NodeTransformer):
+    """`m, e, l = (yield ...)` / `m, e, l = event`  ->  one event variable; reads of m / e / l (and of
+    event[i]) become event.message / event.exception / event.is_last.  Exact, because the event is an
+    immutable namedtuple and the unpacked locals are bound nowhere else."""
+
+    def __init__(self, fields, fnode, fresh):
+        self.fields, self.fnode, self.fresh = fields, fnode, fresh
+        self.view = {}  # local -> (event name, field)
+        self.events = set()
+        self.bad = None
+
+    def _names(self, t):
+        if isinstance(t, (ast.Tuple, ast.List)) and len(t.elts) == len(self.fields) and all(isinstance(x, ast.Name) for x in t.elts):
+            return [x.id for x in t.elts]
+        return None
+
+    def collect(self):
+        for st in walk_no_nested(self.fnode):
+            if isinstance(st, ast.Assign) and len(st.targets) == 1 and isinstance(st.value, ast.Yield):
+                t = st.targets[0]
+                if isinstance(t, ast.Name):
+                    self.events.add(t.id)
+                    continue
+                ns = self._names(t)
+                if ns is None:
+                    self.bad = "an event is received into %s" % stmt_text(t)
+                    return
+                ev = self.fresh()
+                self.events.add(ev)
+                for n, f in zip(ns, self.fields):
+                    self._bind(n, ev, f)
+                st.targets = [ast.copy_location(ast.Name(id=ev, ctx=ast.Store()), t)]
+        self.drop = set()
+        for st in walk_no_nested(self.fnode):
+            if isinstance(st, ast.Assign) and len(st.targets) == 1 and isinstance(st.value, ast.Name) and st.value.id in self.events \
+                    and len(writes_to_name(self.fnode, st.value.id)) == 1:
+                ns = self._names(st.targets[0])
+                if ns is not None:
+                    for n, f in zip(ns, self.fields):
+                        self._bind(n, st.value.id, f)
+                    self.drop.add(id(st))
+
+    def _bind(self, n, ev, f):
+        if n in self.view or len(writes_to_name(self.fnode, n)) != 1:
+            self.bad = "the local %s unpacked from an event is bound more than once" % n
+        self.view[n] = (ev, f)
+
+    def visit_Assign(self, st):
+        if id(st) in self.drop:
+            return ast.copy_location(ast.Pass(), st)
+        return self.generic_visit(st)
+
+    def visit_Name(self, n):
+        if isinstance(n.ctx, ast.Load) and n.id in self.view:
+            ev, f = self.view[n.id]
+            return ast.copy_location(ast.Attribute(value=ast.Name(id=ev, ctx=ast.Load()), attr=f, ctx=ast.Load()), n)
+        return n
+
+    def visit_Subscript(self, n):
+        self.generic_visit(n)
+        if isinstance(n.ctx, ast.Load) and isinstance(n.value, ast.Name) and n.value.id in self.events and isinstance(n.slice, ast.Constant) \
+                and isinstance(n.slice.value, int) and 0 <= n.slice.value < len(self.fields):
+            return ast.copy_location(ast.Attribute(value=n.value, attr=self.fields[n.slice.value], ctx=ast.Load()), n)
+        return n
+
+
+def _canonical_run(ctx):
+    """Request._run with every event seen through one variable per yield."""
     fi = ctx.prog.func(RUN)
+    cache = ctx.prog.__dict__.setdefault("_c07_run", {})
+    if "fi" in cache:
+        return cache["fi"]
+    fields = _event_fields(ctx)
+    fn = copy.deepcopy(fi.node)
+    taken = {n.id for n in ast.walk(fn) if isinstance(n, ast.Name)}
+    counter = [0]
+
+    def fresh():
+        while True:
+            counter[0] += 1
+            nm = "event%d" % counter[0]
+            if nm not in taken:
+                taken.add(nm)
+                return nm
+
+    ev = _EventView(fields, fn, fresh)
+    ev.collect()
+    ctx.need(ev.bad is None, "Request._run: %s" % ev.bad)
+    if ev.view or ev.drop:
+        fn = ev.visit(fn)
+        ast.fix_missing_locations(fn)
+        fi = FuncInfo(fi.qn, fn, fi.module, fi.cls, fi.parent)
+    cache["fi"] = fi
+    return fi
+
+
+def _obs_calls(r, attr):
+    """calls <the request's observation>.<attr>(x), the receiver resolved through locals"""
+    out = []
+    for c in calls_in(r.fi.node):
+        if isinstance(c.func, ast.Attribute) and c.func.attr == attr and len(c.args) == 1 and not c.keywords:
+            if canon_chain(r.X, c.func.value, r.cfg.loc1(c)) == OBS:
+                out.append(c)
+    return out
+
+
+def _untag(a):
+    return a.split("@")[0]
+
+
+def _roles(ctx):
+    cache = ctx.prog.__dict__.setdefault("_c07_run", {})
+    if "roles" not in cache:
+        cache["roles"] = _roles_uncached(ctx)
+    return cache["roles"]
+
+
+def _roles_uncached(ctx):
+    fi = _canonical_run(ctx)
     cfg = cfg_of(fi)
     r = _Roles()
+    r.prog = ctx.prog
     r.fi, r.cfg = fi, cfg
     pre, inl = [], []
     for n in walk_no_nested(fi.node):
@@ -64,16 +205,19 @@ def _roles(ctx):
     ctx.need(len(writes_to_name(fi.node, r.FE)) == 1 and len(writes_to_name(fi.node, r.NE)) == 1, "Request._run: event variables are rebound")
     r.loop = enclosing_loops(cfg, r.ne_stmt, fi.node)[-1]
     r.ne_nid = cfg.loc1(r.ne_stmt)
-    r.cbs = [n for n, _ in find(OBS + ".callback($m)", fi.node)]
-    r.errs = [n for n, _ in find(OBS + ".error($e)", fi.node)]
     r.X = Expander(fi)
     r.N = Normalizer()
+    r.cbs = _obs_calls(r, "callback")
+    r.errs = _obs_calls(r, "error")
     r.V2 = "%s.message.opt.observe" % r.NE
     r.noobs = ("is", r.V2, "None")
     r.hasobs = ("isnot", r.V2, "None")
     r.allowed = {("is", "%s.exception" % r.NE, "None"), ("nottruth", OBS + ".cancelled")}
-    loop_alts = cond_dnf(r.X, r.N, fi, r.ne_stmt)
+    loop_alts = reach_dnf(r.X, r.N, fi, r.ne_stmt)
     r.ctx_lits = frozenset.intersection(*loop_alts) if loop_alts else frozenset()
+    # what may be assumed when a condition inside the loop is judged: what holds for the whole loop, and
+    # 'no transport error, not cancelled' (C07.b demands both at every delivery)
+    r.assume = frozenset(rename_atoms(l, _untag) for l in r.ctx_lits) | frozenset(r.allowed)
     return r
 
 
@@ -81,28 +225,22 @@ def _in_loop(r, st):
     return any(l is r.loop for l in enclosing_loops(r.cfg, st, r.fi.node))
 
 
-def _decision(r, node):
-    """DNF of the conditions of `node` beyond what holds for the whole loop and
-    beyond 'no transport error, not cancelled'."""
-    alts = cond_dnf(r.X, r.N, r.fi, node)
-    D = {frozenset(a - r.ctx_lits - r.allowed) for a in alts}
-    return _absorb(D)
+def _alts(r, node):
+    """Alternatives (conjunctions of normal-form literals) under which `node` executes; a value a local
+    had when a flag was computed (`v1@flag`) is the same quantity as the local (`v1`)."""
+    return [frozenset(rename_atoms(l, _untag) for l in a) for a in reach_dnf(r.X, r.N, r.fi, node, r.ne_nid)]
 
 
-def _absorb(D):
-    D = set(D)
-    singles = [next(iter(c)) for c in D if len(c) == 1]
-    out = set()
-    for c in D:
-        c2 = set(c)
-        for p in singles:
-            if len(c) > 1:
-                try:
-                    c2.discard(_neg(p))
-                except KeyError:
-                    pass
-        out.add(frozenset(c2))
-    return {c for c in out if not any(o < c for o in out)}
+def _holds(r, node, lit):
+    alts = _alts(r, node)
+    return bool(alts) and all(entails(a_, lit) for a_ in alts)
+
+
+def _residue(r, alts, extra=()):
+    """the alternatives without what is assumed anyway, absorbed (for messages only)"""
+    drop = set(r.assume) | set(extra)
+    D = {frozenset(a - drop) for a in alts}
+    return {c for c in D if not any(o < c for o in D)}
 
 
 def _fresh(V1, V2, T1, T2, RS):
@@ -124,20 +262,36 @@ def _atoms(D):
     return out
 
 
-def _match_roles(r, D, with_noobs):
-    """Assignment (V1, T1, T2, RESET) of the program's atoms under which D is
-    the RFC 7641 section 3.4 condition, or None."""
-    atoms = _atoms(D)
-    resets = [a for a in atoms if a.endswith(".OBSERVATION_RESET_TIME")]
+def _match_roles(r, alts, with_noobs, extra=()):
+    """Assignment (V1, T1, T2, RESET) of the program's quantities under which the condition `alts` is
+    *equivalent* (not: equal in shape) to the RFC 7641 section 3.4 condition, or None.  The comparison is
+    semantic (_kit_c07.sem_equiv): nested / sequential tests, early returns, redundant complements
+    (`v1 < v2 ... elif v1 > v2`) and reordered operands all denote the same set of (V1, V2, T1, T2)."""
+    assume = frozenset(r.assume) | frozenset(extra)
+    D = [frozenset(a) for a in alts]
+    body = [c - assume for c in D]
+    atoms = _atoms(body)
+    resets = sorted(a for a in atoms if a.endswith(".OBSERVATION_RESET_TIME"))
     cands = sorted(a for a in atoms if a != r.V2 and a not in resets)
     if len(resets) != 1 or len(cands) < 3 or len(cands) > 6:
         return None
+    have = forms_of(body)
+    undecided = None
     for V1, T1, T2 in itertools.permutations(cands, 3):
         ref = _fresh(V1, r.V2, T1, T2, resets[0])
+        if not forms_of(ref) <= have:
+            continue  # the program's condition does not even depend on these differences
         if with_noobs:
             ref = ref | {frozenset({r.noobs})}
-        if D == ref:
+        try:
+            ok, _cex = sem_equiv(D, ref, assume)
+        except Undecided as e:
+            undecided = e
+            continue
+        if ok:
             return V1, T1, T2, resets[0]
+    if undecided is not None:
+        raise undecided
     return None
 
 
@@ -145,63 +299,76 @@ def _dshow(D):
     return " | ".join(sorted(_show(c) for c in D))
 
 
-def _is_time_call(e):
-    return isinstance(e, ast.Call) and chain(e.func) == "time.time" and not e.args and not e.keywords
+def _is_time_call(r, e):
+    if not (isinstance(e, ast.Call) and not e.args and not e.keywords):
+        return False
+    c = chain(e.func)
+    return c is not None and r.prog.resolve_in_module(r.fi.module, c) == "time.time"
 
 
-def _value_of_write(w):
-    if isinstance(w, ast.Assign) and len(w.targets) == 1 and isinstance(w.targets[0], ast.Name):
-        return w.value
-    if isinstance(w, ast.AnnAssign):
-        return w.value
-    return None
+def _is_quantity(r, v, nid, atom):
+    """does expression v (at CFG node nid, locals resolved) denote the quantity `atom`?"""
+    if v is None:
+        return False
+    c = canon(r.X, v, nid)
+    try:
+        return r.N.poly(c if c is not None else v) == Poly.atom(atom)
+    except NormError:
+        return False
 
 
-def _freshness(ctx, r):
-    """(roles or None, decision DNF) of the first callback site."""
+def _delivery(ctx, r):
+    """(roles or None, all alternatives under which some callback site runs)"""
     ctx.floor("observation.callback sites in Request._run", len(r.cbs), 1)
-    D = _decision(r, r.cbs[0])
-    return _match_roles(r, D, True), D
+    alts = [a for cb in r.cbs for a in _alts(r, cb)]
+    return _match_roles(r, alts, True), alts
 
 
 @R.clause("C07.a", "a notification is delivered exactly when RFC 7641 section 3.4 calls it fresh (2^23 serial window, 128 s reset) or it carries no Observe option; V1/T1/V2/T2 are the values the RFC names")
 def a(ctx):
     r = _roles(ctx)
     fi, cfg = r.fi, r.cfg
-    ctx.floor("observation.callback sites in Request._run", len(r.cbs), 1)
-    roles = None
+    roles, alts = _delivery(ctx, r)
+    # The obligation is over the union of all delivery sites (one site behind a flag, or one site per case):
+    # the disjunction of their conditions must be the RFC formula, and no event may be delivered twice.
+    ctx.ob("the delivery condition is (V1<V2 & V2-V1<2^23) | (V1>V2 & V1-V2>2^23) | (T2 > T1 + RESET) | (no Observe option), nothing more and nothing less",
+           roles is not None, fi, r.cbs[0], detail="delivery condition: %s" % _dshow(_residue(r, alts)))
+    cb_n = {cfg.loc1(cb) for cb in r.cbs}
     for cb in r.cbs:
-        D = _decision(r, cb)
-        m = _match_roles(r, D, True)
-        roles = roles or m
-        ctx.ob("the delivery condition is (V1<V2 & V2-V1<2^23) | (V1>V2 & V1-V2>2^23) | (T2 > T1 + RESET) | (no Observe option), nothing more and nothing less",
-               m is not None, fi, cb, detail="delivery condition: %s" % _dshow(D))
+        after = cfg.reach({cfg.loc1(cb)}, avoid={r.ne_nid}, skip_labels=("exc",))
+        ctx.ob("a notification is delivered at most once", not (after & cb_n), fi, cb, construct="%s  [once]" % stmt_text(cb))
     if roles is None:
         return
     V1, T1, T2, RS = roles
     ctx.note("roles: V1=%s T1=%s V2=%s T2=%s RESET=%s" % (V1, T1, r.V2, T2, RS))
-    b1, bt1 = V1.split("@")[0], T1.split("@")[0]
-    # T2: arrival time of this notification
-    w2 = writes_to_name(fi.node, T2) if "@" not in T2 else []
-    ok = bool(w2) and all(_is_time_call(_value_of_write(w)) and _in_loop(r, w) and cfg.dominates(r.ne_nid, cfg.loc1(w)) for w in w2)
-    ctx.ob("T2 is the time at which the notification being judged arrived (time.time() taken after receiving it)", ok, fi, w2[0] if w2 else r.cbs[0],
-           construct=stmt_text(w2[0]) if w2 else "T2 = %s" % T2)
+    # T2: arrival time of this notification -- a local set from the clock after the event was received, or the clock read in the condition itself
+    w2 = write_values(fi.node, T2) if T2.isidentifier() else []
+    if w2:
+        ok = all(v is not None and _is_time_call(r, v) and _in_loop(r, st) and cfg.dominates(r.ne_nid, cfg.loc1(st)) for st, v in w2)
+    else:
+        try:
+            ok = _is_time_call(r, ast.parse(T2, mode="eval").body)
+        except SyntaxError:
+            ok = False
+    ctx.ob("T2 is the time at which the notification being judged arrived (time.time() taken after receiving it)", ok, fi, w2[0][0] if w2 else r.cbs[0],
+           construct=stmt_text(w2[0][0]) if w2 else "T2 = %s" % T2)
+    ctx.need(V1.isidentifier() and T1.isidentifier(), "Request._run: the last accepted Observe value / arrival time are not kept in locals (V1=%s, T1=%s)" % (V1, T1))
     # V1 / T1: initialised from the first response, replaced by V2 / T2
     for base, what, pre_ok, in_ok in (
-        (b1, "V1", lambda v: canon_chain(r.X, v, cfg.loc1(v)) == "%s.message.opt.observe" % r.FE, lambda v: canon_chain(r.X, v, cfg.loc1(v)) == r.V2),
-        (bt1, "T1", _is_time_call, lambda v: isinstance(v, ast.Name) and v.id == T2),
+        (V1, "V1", lambda v, n: canon_chain(r.X, v, n) == "%s.message.opt.observe" % r.FE, lambda v, n: canon_chain(r.X, v, n) == r.V2),
+        (T1, "T1", lambda v, n: _is_time_call(r, v), lambda v, n: _is_quantity(r, v, n, T2)),
     ):
-        ws = writes_to_name(fi.node, base)
-        pre = [w for w in ws if not _in_loop(r, w)]
-        inl = [w for w in ws if _in_loop(r, w)]
+        ws = write_values(fi.node, base)
+        pre = [(st, v) for st, v in ws if not _in_loop(r, st)]
+        inl = [(st, v) for st, v in ws if _in_loop(r, st)]
         ctx.ob("%s is initialised when the first response arrives" % what, bool(pre), fi, r.fe_stmt, construct="%s = %s  [initialised]" % (what, base))
         ctx.ob("%s is replaced when a notification is accepted" % what, bool(inl), fi, r.ne_stmt, construct="%s = %s  [updated]" % (what, base))
-        for w in pre:
-            v = _value_of_write(w)
-            ctx.ob("%s starts as the %s of the first response" % (what, "Observe value" if what == "V1" else "arrival time"), v is not None and pre_ok(v), fi, w)
-        for w in inl:
-            v = _value_of_write(w)
-            ctx.ob("%s is replaced by %s of the notification just judged" % (what, "V2" if what == "V1" else "T2"), v is not None and in_ok(v), fi, w)
+        for st, v in pre:
+            ctx.ob("%s starts as the %s of the first response" % (what, "Observe value" if what == "V1" else "arrival time"), v is not None and pre_ok(v, cfg.loc1(st)), fi, st,
+                   construct="%s  [%s]" % (stmt_text(st), what))
+        for st, v in inl:
+            ctx.ob("%s is replaced by %s of the notification just judged" % (what, "V2" if what == "V1" else "T2"), v is not None and in_ok(v, cfg.loc1(st)), fi, st,
+                   construct="%s  [%s]" % (stmt_text(st), what))
     ctx.ob("RESET is OBSERVATION_RESET_TIME of the request's transport tuning", RS == "self._pipe.request.transport_tuning.OBSERVATION_RESET_TIME", fi, r.cbs[0],
            detail="RESET = %s" % RS, construct="RESET = %s" % RS)
     ci = ctx.prog.cls("numbers.constants.TransportTuning")
@@ -217,34 +384,43 @@ def a(ctx):
 def b(ctx):
     r = _roles(ctx)
     fi, cfg = r.fi, r.cfg
-    roles, _D = _freshness(ctx, r)
+    roles, _alts_cb = _delivery(ctx, r)
     ctx.need(roles is not None, "C07.b needs the freshness roles established by C07.a (delivery condition is not the RFC 7641 formula)")
-    base_roles = tuple(x.split("@")[0] for x in roles)
+    V1, T1, T2, RS = roles
+    want = _fresh(V1, r.V2, T1, T2, RS)
     n = 0
-    for base in base_roles[:2]:
-        for w in writes_to_name(fi.node, base):
-            if not _in_loop(r, w):
-                continue
-            n += 1
-            Du = {frozenset(c - {r.hasobs}) for c in _decision(r, w)}
-            mu = _match_roles(r, Du, False)
-            ok = mu is not None and tuple(x.split("@")[0] for x in mu) == base_roles
-            ctx.ob("the last-accepted value is replaced exactly when the notification is fresh by RFC 7641 section 3.4", ok, fi, w, detail="update condition: %s" % _dshow(Du))
-    ctx.ob("both V1 and T1 are updated inside the observation loop", n >= 2, fi, r.ne_stmt, detail="%d update site(s)" % n, construct="updates of V1/T1")
+    for base in (V1, T1):
+        sites = [st for st, _v in write_values(fi.node, base) if _in_loop(r, st)]
+        if not sites:
+            continue
+        n += 1
+        # union over all update sites of this quantity: it is replaced on exactly the fresh notifications
+        U = [a_ for st in sites for a_ in _alts(r, st)]
+        ok, cex = sem_equiv(U, want, r.assume | {r.hasobs})
+        ctx.ob("the last-accepted value is replaced exactly when the notification is fresh by RFC 7641 section 3.4", ok, fi, sites[0],
+               detail="update condition: %s%s" % (_dshow(_residue(r, U, {r.hasobs})), "; differs for %s" % cex if cex else ""),
+               construct="%s  [%s]" % (stmt_text(sites[0]), "V1" if base == V1 else "T1"))
+    ctx.ob("both V1 and T1 are updated inside the observation loop", n >= 2, fi, r.ne_stmt, detail="%d of 2 quantities updated" % n, construct="updates of V1/T1")
     cancelled_ok = pseudo_asserting(r.X, r.N, cfg, lambda a: ("nottruth", OBS + ".cancelled") in a)
     for cb in r.cbs:
         cn = cfg.loc1(cb)
         ctx.ob("the callback receives the message of the event just received", len(cb.args) == 1 and canon_chain(r.X, cb.args[0], cn) == "%s.message" % r.NE, fi, cb,
                construct="%s  [argument]" % stmt_text(cb))
-        ctx.ob("the callback runs only for events that carry no exception", holds_at(r.X, r.N, fi, cb, ("is", "%s.exception" % r.NE, "None")), fi, cb,
+        ctx.ob("the callback runs only for events that carry no exception", _holds(r, cb, ("is", "%s.exception" % r.NE, "None")), fi, cb,
                construct="%s  [exception]" % stmt_text(cb))
         ctx.ob("between receiving an event and delivering it the observation is checked for cancellation",
                bool(cancelled_ok) and cn not in cfg.reach({r.ne_nid}, avoid=cancelled_ok), fi, cb, construct="%s  [cancelled]" % stmt_text(cb))
 
 
-def _arg_class(prog, fi, call):
-    if len(call.args) == 1 and isinstance(call.args[0], ast.Call):
-        c = chain(call.args[0].func)
+def _arg_class(prog, fi, call, X=None):
+    """qualified class of the object constructed for the call's only argument (`f(E())` or `e = E(); f(e)`)"""
+    if len(call.args) != 1:
+        return None
+    v = call.args[0]
+    if not isinstance(v, ast.Call):
+        v = resolve_local(fi.node, v)
+    if isinstance(v, ast.Call):
+        c = chain(v.func)
         return prog.resolve_in_module(fi.module, c) if c else None
     return None
 
@@ -280,6 +456,12 @@ def c(ctx):
             ok = bool(sites) and cfg.exit not in seen and not (seen & yield_n)
             ctx.ob(what, ok, fi, cfg.nodes[p].ast, construct="%s  [%s]" % (stmt_text(cfg.nodes[p].ast), "T" if cfg.nodes[p].kind == "T" else "F"))
 
+    # the other direction, over all ways round the loop (whatever their shape: fall-through, continue, flags)
+    for lit, what in ((("is", "%s.exception" % r.NE, "None"), "carried a message"), (("nottruth", "%s.is_last" % r.NE), "was not the last one"),
+                      (r.hasobs, "carried an Observe option")):
+        P = pseudo_asserting(r.X, r.N, cfg, lambda a_, lit=lit: lit in a_)
+        ok = bool(P) and r.ne_nid not in cfg.reach({r.ne_nid}, avoid=P, skip_labels=("exc",))
+        ctx.ob("the runner waits for a further event only after an event that %s" % what, ok, fi, r.ne_stmt, construct="%s  [next only if it %s]" % (stmt_text(r.ne_stmt), what))
     # only the part of the function where an observation exists
     hasobs = pseudo_asserting(r.X, r.N, cfg, lambda a: ("isnot", OBS, "None") in a)
     ctx.floor("branches on 'an observation was requested'", len(hasobs), 1)
@@ -300,8 +482,68 @@ def c(ctx):
         ci = prog.cls(cls)
         ctx.ob("%s is an aiocoap Error" % cls, prog.is_subclass(ci.qn, "aiocoap.error.Error"), None, None, construct="class %s" % cls)
     # hand-confirmed instance counts (checked last so that a missing site is first reported where it matters)
-    ctx.floor("observation.error sites in Request._run", len(r.errs), 4)
+    # (one site per kind of ending at least: NotObservable, the transport's exception, ObservationCancelled)
+    ctx.floor("observation.error sites in Request._run", len(r.errs), 3)
     ctx.floor("observation.callback sites in Request._run", len(r.cbs), 1)
+
+
+TABLE = "self.outgoing_requests"
+
+
+def _callee(prog, fi, call):
+    """FuncInfo of a call to a method of the same class (`self.m(..)`) or a function of the same module, else None"""
+    f = call.func
+    if isinstance(f, ast.Attribute) and isinstance(f.value, ast.Name) and f.value.id in ("self", "cls"):
+        owner = fi
+        while owner is not None and owner.cls is None:
+            owner = owner.parent
+        return prog.lookup_method(owner.cls.qn, f.attr) if owner is not None else None
+    if isinstance(f, ast.Name):
+        q = prog.resolve_in_module(fi.module, f.id)
+        return prog.funcs.get(q)
+    return None
+
+
+def _taken_from_table(prog, fi, e, depth=3):
+    """Is the value of expression e (in function fi) an entry of self.outgoing_requests -- `T[k]`, `T.get(k[, None])`,
+    `T.pop(k[, None])` -- or None, possibly bound through locals, tuple unpacking and the return value of a helper?"""
+    if depth < 0 or e is None:
+        return False
+    if isinstance(e, ast.Constant):
+        return e.value is None
+    if isinstance(e, ast.Subscript):
+        return chain(e.value) == TABLE
+    if isinstance(e, ast.Call) and isinstance(e.func, ast.Attribute) and e.func.attr in ("get", "pop") and chain(e.func.value) == TABLE:
+        return len(e.args) == 1 or (len(e.args) == 2 and isinstance(e.args[1], ast.Constant) and e.args[1].value is None)
+    if isinstance(e, ast.IfExp):
+        return _taken_from_table(prog, fi, e.body, depth) and _taken_from_table(prog, fi, e.orelse, depth)
+    if isinstance(e, ast.Name):
+        return _local_from_table(prog, fi, e.id, depth - 1)
+    if isinstance(e, ast.Call):
+        g = _callee(prog, fi, e)
+        rets = returned_elements(g) if g is not None else None
+        return bool(rets) and all(_taken_from_table(prog, g, v, depth - 1) for _r, v in rets)
+    return False
+
+
+def _local_from_table(prog, fi, name, depth=3):
+    ws = write_values(fi.node, name)
+    if not ws or depth < 0:
+        return False
+    for st, v in ws:
+        if v is not None:
+            if not _taken_from_table(prog, fi, v, depth):
+                return False
+            continue
+        # `.., name, .. = helper(...)`: the element of the returned tuples at the position of `name`
+        if not (isinstance(st, ast.Assign) and len(st.targets) == 1 and isinstance(st.targets[0], (ast.Tuple, ast.List)) and isinstance(st.value, ast.Call)):
+            return False
+        idx = [i for i, t in enumerate(st.targets[0].elts) if isinstance(t, ast.Name) and t.id == name]
+        g = _callee(prog, fi, st.value)
+        rets = returned_elements(g, idx[0]) if g is not None and len(idx) == 1 else None
+        if not rets or not all(_taken_from_table(prog, g, v, depth - 1) for _r, v in rets):
+            return False
+    return True
 
 
 @R.clause("C07.d", "TokenManager.process_response forgets the token exactly when the request had no Observe:0 or the response has no Observe option, and reports is_last for exactly those responses")
@@ -311,56 +553,122 @@ def d(ctx):
     ctx.need(len(p) == 1 and not writes_to_name(fi.node, p[0]), "process_response signature changed")
     resp = p[0]
     cfg = cfg_of(fi)
-    X, N = Expander(fi), Normalizer()
-    reqs = []
-    for n in walk_no_nested(fi.node):
-        if isinstance(n, ast.Assign) and len(n.targets) == 1 and isinstance(n.targets[0], ast.Name):
-            v = n.value
-            if (isinstance(v, ast.Subscript) and chain(v.value) == "self.outgoing_requests") or match("self.outgoing_requests.get($*a)", v) is not None:
-                reqs.append(n.targets[0].id)
-    ctx.need(len(set(reqs)) == 1, "process_response: the matched request is not bound to one local")
-    req = reqs[0]
+    N = Normalizer()
+    # the matched request: the one object every add_response goes to; it must come out of outgoing_requests
+    adds = [c for c in calls_in(fi.node) if isinstance(c.func, ast.Attribute) and c.func.attr == "add_response"]
+    ctx.floor("add_response sites in process_response", len(adds), 1)
+    recvs = {c.func.value.id if isinstance(c.func.value, ast.Name) else None for c in adds}
+    ctx.need(len(recvs) == 1 and None not in recvs, "process_response: the response is not handed to one local object")
+    req = recvs.pop()
+    ctx.need(_local_from_table(ctx.prog, fi, req), "process_response: the object the response is handed to is not (visibly) an entry of outgoing_requests")
     X = Expander(fi, opaque={req})
     robs = Poly.atom("%s.request.opt.observe" % req)
-    want_final = {frozenset({("ne", robs)}), frozenset({("is", "%s.opt.observe" % resp, "None")})}
-    want_keep = {frozenset({("eq", robs), ("isnot", "%s.opt.observe" % resp, "None")})}
-    adds = [(n, bb) for n, bb in find("%s.add_response($*a, $**k)" % req, fi.node)]
-    ctx.floor("add_response sites in process_response", len(adds), 1)
-    base = None
-    for call, bb in adds:
-        alts = cond_dnf(X, N, fi, call)
-        base = frozenset.intersection(*alts) if alts else frozenset()
-        last = [k.value for k in bb["k"] if k.arg == "is_last"]
-        if not last and len(bb["a"]) >= 2:
-            last = [bb["a"][1]]
+    respobs = "%s.opt.observe" % resp
+    want_final = {frozenset({("ne", robs)}), frozenset({("is", respobs, "None")})}
+    want_keep = {frozenset({("eq", robs), ("isnot", respobs, "None")})}
+    site_alts = {id(c): reach_dnf(X, N, fi, c) for c in adds}
+    every = [a_ for c in adds for a_ in site_alts[id(c)]]
+    # what holds wherever the response is handed on ("a request was found"); it must not depend on the Observe options
+    base = frozenset.intersection(*every) if every else frozenset()
+    decisive = {"%s.request.opt.observe" % req, respobs}
+
+    def mentions(l):
+        return bool(({x for x in l[1:] if isinstance(x, str)} | (l[1].atoms() if isinstance(l[1], Poly) else set())) & decisive)
+
+    ctx.ob("every matched response is handed on, whatever the Observe options are", not any(mentions(l) for l in base), fi, adds[0],
+           detail="handed on only when: %s" % _show(base), construct="%s  [always]" % stmt_text(adds[0]))
+    base = frozenset(l for l in base if not mentions(l))
+    T, F = [], []
+    add_n = {cfg.loc1(c) for c in adds}
+    for call in adds:
+        last = [k.value for k in call.keywords if k.arg == "is_last"]
+        if not last and len(call.args) >= 2:
+            last = [call.args[1]]
         ctx.need(len(last) == 1, "process_response: add_response without an is_last argument")
-        ctx.ob("the response handed on is the one received", bool(bb["a"]) and chain(bb["a"][0]) == resp, fi, call, construct="%s  [message]" % stmt_text(call))
-        tv = alts_bool(X, N, last[0], cfg.loc1(call), node_conditions(fi, call))
-        T = _absorb({frozenset(l - base) for l, t in tv if t})
-        F = _absorb({frozenset(l - base) for l, t in tv if not t})
-        ctx.ob("is_last is reported exactly when the request had no Observe:0 or the response carries no Observe option", T == want_final and F == want_keep, fi, call,
-               detail="is_last true: %s; false: %s" % (_dshow(T), _dshow(F)), construct="%s  [is_last]" % stmt_text(call))
-    pops = [n for k, n in stores_to(fi.node, "self.outgoing_requests") if k in ("pop", "delitem", "del", "clear", "popitem")]
-    ctx.floor("removals from outgoing_requests in process_response", len(pops), 1)
-    union = set()
+        first = call.args[0] if call.args else next((k.value for k in call.keywords if k.arg == "response"), None)
+        ctx.ob("the response handed on is the one received", first is not None and canon_chain(X, first, cfg.loc1(call)) == resp, fi, call, construct="%s  [message]" % stmt_text(call))
+        ctx.ob("the response is handed on once", not (cfg.reach({cfg.loc1(call)}, skip_labels=("exc",)) & add_n), fi, call, construct="%s  [once]" % stmt_text(call))
+        for conds in path_conditions(fi, cfg.loc1(call)):
+            tv = alts_bool(X, N, last[0], cfg.loc1(call), conds)
+            T += [l for l, t in tv if t]
+            F += [l for l, t in tv if not t]
+    # over all hand-over sites together (one site with a computed flag, or one site per case with a literal):
+    okT, cexT = sem_equiv(T, want_final, base)
+    okF, cexF = sem_equiv(F, want_keep, base)
+    ctx.ob("is_last is reported exactly when the request had no Observe:0 or the response carries no Observe option", okT and okF, fi, adds[0],
+           detail="is_last true: %s; false: %s%s" % (_dshow({frozenset(c - base) for c in T}), _dshow({frozenset(c - base) for c in F}), "; differs for %s" % (cexT or cexF) if (cexT or cexF) else ""),
+           construct="%s  [is_last]" % stmt_text(adds[0]))
+    pops = [n for k, n in stores_to(fi.node, TABLE) if k in ("pop", "delitem", "del", "clear", "popitem")]
+    if not pops:
+        # nothing is ever removed here -- unless a method that was not expanded does it, which this rule cannot follow
+        hidden = [c for c in calls_in(fi.node) if _callee(ctx.prog, fi, c) is not None and
+                  any(k in ("pop", "delitem", "del", "clear", "popitem") for k, _n in stores_to(_callee(ctx.prog, fi, c).node, TABLE))]
+        ctx.need(not hidden, "process_response: outgoing_requests entries are removed inside %s, which could not be expanded" % (stmt_text(hidden[0]) if hidden else ""))
+        ctx.ob("the token is forgotten whenever the request had no Observe:0 or the response carries no Observe option", False, fi, adds[0],
+               detail="no removal from outgoing_requests in process_response", construct="removal from outgoing_requests  [complete]")
+        return
+    union = []
     for pop in pops:
-        Dp = _absorb({frozenset(a - base) for a in cond_dnf(X, N, fi, pop)})
-        union |= Dp
-        ctx.ob("the token is forgotten only when the request had no Observe:0 or the response carries no Observe option", all(any(w <= c for w in want_final) for c in Dp) and bool(Dp), fi, pop,
-               detail="removal condition: %s" % _dshow(Dp))
-    ctx.ob("the token is forgotten whenever the request had no Observe:0 or the response carries no Observe option", _absorb(union) == want_final, fi, pops[0],
-           detail="removal condition: %s" % _dshow(_absorb(union)), construct="removal from outgoing_requests  [complete]")
+        Dp = reach_dnf(X, N, fi, pop)
+        union += Dp
+        ok, cex = sem_implies(Dp, want_final, base)
+        ctx.ob("the token is forgotten only when the request had no Observe:0 or the response carries no Observe option", ok and bool(Dp), fi, pop,
+               detail="removal condition: %s" % _dshow({frozenset(c - base) for c in Dp}))
+    ok, cex = sem_equiv(union, want_final, base)
+    ctx.ob("the token is forgotten whenever the request had no Observe:0 or the response carries no Observe option", ok, fi, pops[0],
+           detail="removal condition: %s%s" % (_dshow({frozenset(c - base) for c in union}), "; differs for %s" % cex if cex else ""), construct="removal from outgoing_requests  [complete]")
+
+
+def _iter_source(fnode, e):
+    """the attribute chain a `for` iterates over, looking through a local and through a copy of the collection
+    (`list(x)`, `tuple(x)`, `x[:]`, `x.copy()`): the same elements in the same order"""
+    e = resolve_local(fnode, e)
+    if isinstance(e, ast.Call) and isinstance(e.func, ast.Name) and e.func.id in ("list", "tuple") and len(e.args) == 1 and not e.keywords:
+        return _iter_source(fnode, e.args[0])
+    if isinstance(e, ast.Call) and isinstance(e.func, ast.Attribute) and e.func.attr == "copy" and not e.args and not e.keywords:
+        return _iter_source(fnode, e.func.value)
+    if isinstance(e, ast.Subscript) and isinstance(e.slice, ast.Slice) and e.slice.lower is None and e.slice.upper is None and e.slice.step is None:
+        return _iter_source(fnode, e.value)
+    return chain(e)
 
 
 def _iterated_field(fi):
-    """(field, loop) for `for c in self.<field>: c(<param>)` in a one-parameter method."""
+    """(field, loop, calls, params) for `for c in self.<field>: c(<param>)` in a one-parameter method."""
     p = params(fi)
     out = []
     for n in walk_no_nested(fi.node):
-        if isinstance(n, ast.For) and isinstance(n.target, ast.Name) and (chain(n.iter) or "").startswith("self."):
+        if isinstance(n, ast.For) and isinstance(n.target, ast.Name):
+            src = _iter_source(fi.node, n.iter) or ""
+            if not src.startswith("self."):
+                continue
             calls = [c for c in ast.walk(n) if isinstance(c, ast.Call) and isinstance(c.func, ast.Name) and c.func.id == n.target.id]
             if calls:
-                out.append((chain(n.iter), n, calls, p))
+                out.append((src, n, calls, p))
+    return out
+
+
+def _attr_assignments(fnode):
+    """(statement, attribute chain, value) for every assignment to an attribute chain, element-wise through
+    tuple targets and repeated for every target of a chained assignment"""
+    out = []
+
+    def rec(st, t, v):
+        if isinstance(t, (ast.Tuple, ast.List)):
+            if isinstance(v, (ast.Tuple, ast.List)) and len(v.elts) == len(t.elts):
+                for t2, v2 in zip(t.elts, v.elts):
+                    rec(st, t2, v2)
+            else:
+                for t2 in t.elts:
+                    rec(st, t2, None)
+        elif isinstance(t, ast.Attribute) and chain(t):
+            out.append((st, chain(t), v))
+
+    for n in walk_no_nested(fnode):
+        if isinstance(n, ast.Assign):
+            for t in n.targets:
+                rec(n, t, n.value)
+        elif isinstance(n, ast.AnnAssign) and n.value is not None:
+            rec(n, n.target, n.value)
     return out
 
 
@@ -382,15 +690,20 @@ def e(ctx):
     ccfg = cfg_of(f_can)
     nulled = set()
     flags = set()
-    for n in walk_no_nested(f_can.node):
-        if isinstance(n, ast.Assign) and isinstance(n.value, ast.Constant):
-            for t in n.targets:
-                c = chain(t)
-                if c and c.startswith("self.") and ccfg.must_pass(ccfg.entry, {ccfg.loc1(n)}):
-                    if n.value.value is None:
-                        nulled.add(c)
-                    elif n.value.value is True:
-                        flags.add(c)
+    for n, c, v in _attr_assignments(f_can.node):
+        v = resolve_local(f_can.node, v) if v is not None else None
+        if isinstance(v, ast.Constant) and c.startswith("self.") and ccfg.must_pass(ccfg.entry, {ccfg.loc1(n)}):
+            if v.value is None:
+                nulled.add(c)
+            elif v.value is True:
+                flags.add(c)
+    # a later assignment of something else would undo it
+    for n, c, v in _attr_assignments(f_can.node):
+        v = resolve_local(f_can.node, v) if v is not None else None
+        if c in nulled and not (isinstance(v, ast.Constant) and v.value is None):
+            nulled.discard(c)
+        if c in flags and not (isinstance(v, ast.Constant) and v.value is True):
+            flags.discard(c)
     for what in ("callback", "error"):
         field = lists[what][0]
         ctx.ob("cancel() replaces the list of %ss by None on every path" % ("callback" if what == "callback" else "errback"), field in nulled, f_can, f_can.node,
@@ -409,13 +722,40 @@ def e(ctx):
         raises = [n for n in region if cfg.nodes[n].kind == "raise"]
         ctx.ob("error() on an already cancelled observation raises", cfg.exit not in region and bool(raises), fi, cfg.nodes[p].ast)
     field, loop = lists["error"]
-    alts = cond_dnf(X, N, fi, loop)
+    alts = reach_dnf(X, N, fi, loop)
     ctx.ob("errbacks are only invoked on an observation that is not yet cancelled", bool(alts) and all(a & alive_lits for a in alts), fi, loop, construct="for ... in %s  [alive]" % field)
     cancels = {cfg.loc1(n) for n, _ in find("self.cancel()", fi.node)}
     ctx.ob("every normal path through error() ends the observation via cancel()", bool(cancels) and cfg.must_pass(cfg.entry, cancels), fi, fi.node, construct="ClientObservation.error [cancel]")
     ln = cfg.loc1(loop)
     ctx.ob("the errbacks are invoked before cancel() drops them", bool(cancels) and not any(ln in cfg.reach({c_}, skip_labels=("exc",)) for c_ in cancels), fi, loop,
            construct="for ... in %s  [order]" % field)
+
+
+def _bind_call(prog, fi, call, method):
+    """arguments of a call `<cls or self>.<method>(...)` in the order of the method's parameters (positional and
+    keyword spellings alike), or None"""
+    if not (isinstance(call, ast.Call) and isinstance(call.func, ast.Attribute) and call.func.attr == method):
+        return None
+    owner = fi
+    while owner is not None and owner.cls is None:
+        owner = owner.parent
+    g = prog.lookup_method(owner.cls.qn, method) if owner is not None else None
+    if g is None or any(isinstance(a_, ast.Starred) for a_ in call.args) or any(k.arg is None for k in call.keywords):
+        return None
+    ps = params(g)
+    out = dict(zip(ps, call.args))
+    for k in call.keywords:
+        if k.arg in out or k.arg not in ps:
+            return None
+        out[k.arg] = k.value
+    if len(call.args) > len(ps):
+        return None
+    res = []
+    for p_ in ps:
+        if p_ not in out:
+            break
+        res.append(out[p_])
+    return res
 
 
 @R.clause("C07.f", "_run_observation: every completed notification goes to callback inside the async for; a normal end is followed by exactly one error(ObservationCancelled); an Exception goes to error(e); the finally block cancels the lower observation unless it already is")
@@ -444,8 +784,8 @@ def f(ctx):
         inside = any(contains(s, cb) for s in loop.body)
         v = resolve_local(fi.node, cb.args[0]) if len(cb.args) == 1 else None
         call = v.value if isinstance(v, ast.Await) else None
-        m = match("$c._complete_by_requesting_block2($pr, $rq, $nt, $lg)", call) if call is not None else None
-        ok = inside and m is not None and chain(m["rq"]) == orig and chain(m["nt"]) == item
+        bound = _bind_call(prog, fi, call, "_complete_by_requesting_block2") if call is not None else None
+        ok = inside and bound is not None and len(bound) >= 3 and chain(resolve_local(fi.node, bound[1])) == orig and chain(resolve_local(fi.node, bound[2])) == item
         ctx.ob("inside the async for each notification is completed by _complete_by_requesting_block2(original request, notification) and handed to callback", ok, fi, cb)
     forF = [n.id for n in cfg.nodes if n.kind == "F" and n.ast is loop]
     ctx.need(len(forF) == 1, "_run_observation: loop exit not found")
@@ -492,6 +832,90 @@ def f(ctx):
 
 # ---------------------------------------------------------------------------
 
+FUT = "self._future"
+
+
+def _fut_stores(fi):
+    """statements that rebind the mailbox future"""
+    return [n for k, n in stores_to(fi.node, FUT, nested=False) if k == "assign"]
+
+
+def _is_mailbox(fi, cfg, e, nid):
+    """Does expression e, evaluated at CFG node nid, denote the *current* mailbox future (True / False / None: cannot
+    tell)?  `self._future` itself, or
+    a local every binding of which took `self._future` (or was bound together with it: `f = self._future = ...`)
+    with no rebinding of `self._future` on any way from that binding to nid."""
+    if chain(e) == FUT:
+        return True
+    if isinstance(e, ast.Call):
+        return False  # whatever a call returns here, it is not held in the mailbox
+    if not isinstance(e, ast.Name):
+        return None
+    ws = write_values(fi.node, e.id)
+    if not ws:
+        return None
+    stores = {cfg.loc1(s) for s in _fut_stores(fi)}
+    binds = {cfg.loc1(st) for st, _v in ws}
+    for st, v in ws:
+        sn = cfg.loc1(st)
+        together = isinstance(st, ast.Assign) and any(chain(t) == FUT for t in st.targets)
+        if not (together or (v is not None and chain(v) == FUT)):
+            # a freshly created object that is not stored in the mailbox is certainly not the mailbox future
+            return False if isinstance(v, ast.Call) else None
+        # along the ways on which this binding is the one that reaches nid (no other binding in between) the mailbox
+        # future must not be rebound
+        others = binds - {sn}
+        for s_ in stores - binds:
+            if cfg.exists_path(sn, s_, avoid=others) and (s_ == nid or cfg.exists_path(s_, nid, avoid=others)):
+                return False
+    return True
+
+
+def _snapshot_of_mailbox(fi, cfg, name, before):
+    """local `name` holds the mailbox future as it was before CFG node `before` (bound once, from self._future, on
+    the way to `before`)"""
+    ws = write_values(fi.node, name)
+    return len(ws) == 1 and ws[0][1] is not None and chain(ws[0][1]) == FUT and cfg.dominates(cfg.loc1(ws[0][0]), before) and cfg.loc1(ws[0][0]) != before
+
+
+def _handler_classes(prog, fi, h):
+    """qualified classes a handler catches; a class-level or module-level tuple of classes is looked through"""
+    if h.type is None:
+        return ["BaseException"]
+    out = []
+    todo = [h.type]
+    depth = 0
+    while todo and depth < 40:
+        depth += 1
+        t = todo.pop(0)
+        if isinstance(t, ast.Tuple):
+            todo = list(t.elts) + todo
+            continue
+        c = chain(t)
+        if c is None:
+            out.append("?")
+            continue
+        parts = c.split(".")
+        if len(parts) == 2 and parts[0] in ("self", "cls"):
+            owner = fi
+            while owner is not None and owner.cls is None:
+                owner = owner.parent
+            v = prog.class_attr(owner.cls.qn, parts[1])[0] if owner is not None else None
+            if v is not None:
+                todo.insert(0, v)
+                continue
+        if len(parts) == 1:
+            try:
+                v = prog.module_const(fi.module.name[len("aiocoap."):] if fi.module.name.startswith("aiocoap.") else fi.module.name, parts[0])
+            except AnalysisError:
+                v = None
+            if isinstance(v, ast.Tuple):
+                todo.insert(0, v)
+                continue
+        out.append(prog.resolve_in_module(fi.module, c))
+    return out
+
+
 @R.clause("C07.g", "lossy `async for` mailbox: producers replace a consumed future before completing it; the consumer re-arms only if the future it awaited is still current; end-of-observation errors end the iteration")
 def g_lossy_iterator(ctx):
     """Single-slot mailbox discipline of ClientObservation._Iterator (added after an independently written
@@ -499,54 +923,106 @@ def g_lossy_iterator(ctx):
     await, an item or error that a producer had already queued in a replacement future would be discarded, so
     the freshest notification / the terminating error would never be delivered."""
     IT = "protocol.ClientObservation._Iterator."
+    prog = ctx.prog
     for name, setter in (("push", "set_result"), ("push_err", "set_exception")):
-        fi = ctx.prog.func(IT + name)
-        arg = params(fi)[0]
+        fi = prog.func(IT + name)
+        ps = params(fi)
+        ctx.need(len(ps) == 1, "_Iterator.%s signature changed" % name)
+        arg = ps[0]
         cfg = cfg_of(fi)
-        sets = [c for c in calls_in(fi.node) if isinstance(c.func, ast.Attribute) and c.func.attr == setter and chain(c.func.value) == "self._future"]
-        ctx.ob("%s completes the mailbox future with its argument" % name, len(sets) == 1 and sets[0].args and isinstance(sets[0].args[0], ast.Name) and sets[0].args[0].id == arg, fi, sets[0] if sets else fi.node,
-               construct="_Iterator.%s completion" % name)
-        fresh = [cfg.loc1(n) for k, n in stores_to(fi.node, "self._future", nested=False) if k == "assign" and isinstance(n.value, ast.Call) and isinstance(n.value.func, ast.Attribute) and n.value.func.attr == "create_future"]
-        done_t = [n.id for n in cfg.nodes if n.kind == "T" and match("self._future.done()", n.ast) is not None]
+        cand = [c for c in calls_in(fi.node) if isinstance(c.func, ast.Attribute) and c.func.attr == setter]
+        verdicts = [(c, _is_mailbox(fi, cfg, c.func.value, cfg.loc1(c))) for c in cand]
+        ctx.need(not any(v is None for _c, v in verdicts), "_Iterator.%s completes a future of which the rule cannot tell whether it is the mailbox future" % name)
+        sets = [c for c, v in verdicts if v]
+        for c, v in verdicts:
+            if not v:
+                ctx.ob("%s completes the mailbox future (the one __anext__ awaits), not another or an outdated one" % name, False, fi, c)
+        set_n = {cfg.loc1(c) for c in sets}
+        # on every path exactly one completion, with the argument
+        ok = bool(sets) and all(len(c.args) == 1 and not c.keywords and isinstance(resolve_local(fi.node, c.args[0]), ast.Name) and resolve_local(fi.node, c.args[0]).id == arg for c in sets) \
+            and not writes_to_name(fi.node, arg) and cfg.must_pass(cfg.entry, set_n) and not any(cfg.reach({n}, skip_labels=("exc",)) & set_n for n in set_n)
+        ctx.ob("%s completes the mailbox future with its argument" % name, ok, fi, sets[0] if sets else fi.node, construct="_Iterator.%s completion" % name)
+        fresh = {cfg.loc1(n) for n in _fut_stores(fi) if isinstance(n.value, ast.Call) and isinstance(n.value.func, ast.Attribute) and n.value.func.attr == "create_future"}
+        done_t = [n.id for n in cfg.nodes if n.kind == "T" and isinstance(n.ast, ast.Call) and isinstance(n.ast.func, ast.Attribute) and n.ast.func.attr == "done" and not n.ast.args
+                  and _is_mailbox(fi, cfg, n.ast.func.value, cfg.loc1(n.ast))]
         for c in sets:
             nid = cfg.loc1(c)
-            ok = bool(done_t) and bool(fresh) and all(not cfg.exists_path(t, nid, avoid=set(fresh)) for t in done_t) and cfg.must_pass(cfg.entry, [nid])
+            # a completed mailbox future (outcome `done()` is true) never reaches the completion without being replaced by a new one
+            ok = bool(done_t) and bool(fresh) and all(not cfg.exists_path(t, nid, avoid=set(fresh)) for t in done_t)
+            # ... and nothing reaches the completion without that test
+            ok = ok and not cfg.exists_path(cfg.entry, nid, avoid={x for t in done_t for x, _l in cfg.pred[t]})
             ctx.ob("%s never completes an already completed future: a consumed/unfetched one is replaced first" % name, ok, fi, c)
-    fi = ctx.prog.func(IT + "__anext__")
+    fi = prog.func(IT + "__anext__")
     cfg = cfg_of(fi)
     awaits = [n for n in walk_no_nested(fi.node) if isinstance(n, ast.Await)]
-    aw = [a for a in awaits if chain(a.value) == "self._future" or (isinstance(a.value, ast.Name) and any(isinstance(w, ast.Assign) and chain(w.value) == "self._future" for w in writes_to_name(fi.node, a.value.id)))]
+    aw = [a_ for a_ in awaits if chain(a_.value) == FUT or (isinstance(a_.value, ast.Name) and _snapshot_of_mailbox(fi, cfg, a_.value.id, cfg.loc1(a_)))]
     ctx.ob("__anext__ waits for the mailbox future", len(aw) == 1, fi, aw[0] if aw else fi.node, construct="_Iterator.__anext__ await")
+    N = Normalizer()
     if aw:
         an = cfg.loc1(aw[0])
-        rearm = [(k, n) for k, n in stores_to(fi.node, "self._future", nested=False) if k == "assign" and an in cfg.dominators(cfg.loc1(n)) or (k == "assign" and cfg.exists_path(an, cfg.loc1(n)))]
-        for k, n in rearm:
+        rearm = [n for n in _fut_stores(fi) if cfg.exists_path(an, cfg.loc1(n))]
+        for n in rearm:
             nid = cfg.loc1(n)
             ok = False
             for e, pol in guard_exprs(cfg, nid):
-                b = match("$f is self._future", e)
-                if b is not None and pol and isinstance(b["f"], ast.Name):
-                    ws = writes_to_name(fi.node, b["f"].id)
-                    if len(ws) == 1 and isinstance(ws[0], ast.Assign) and chain(ws[0].value) == "self._future" and cfg.dominates(cfg.loc1(ws[0]), an) and cfg.loc1(ws[0]) != an:
+                # `snapshot is self._future` holds (any spelling: mirrored, `is not` + else / early return, ==)
+                try:
+                    k = N.cmp(e)
+                except NormError:
+                    continue
+                if not pol:
+                    k = N.negate(k)
+                if k[0] in ("is", "eq") and len(k) == 3 and FUT in k[1:]:
+                    other = [x for x in k[1:] if x != FUT]
+                    if len(other) == 1 and other[0].isidentifier() and _snapshot_of_mailbox(fi, cfg, other[0], an):
                         ok = True
             ctx.ob("after its await the consumer replaces the mailbox future only if it is still the one it awaited (a newer one already holds the next item or error)", ok, fi, n)
         rets = [r for r in walk_no_nested(fi.node) if isinstance(r, ast.Return)]
-        okr = bool(rets) and all(isinstance(r.value, ast.Name) and any(isinstance(w, ast.Assign) and w.value is aw[0] for w in writes_to_name(fi.node, r.value.id)) or r.value is aw[0] for r in rets)
+
+        def delivered(v):
+            if v is aw[0]:
+                return True
+            if isinstance(v, ast.Name):
+                ws = write_values(fi.node, v.id)
+                return bool(ws) and all(val is aw[0] or (val is not None and val is not v and isinstance(val, ast.Name) and delivered(val)) for _st, val in ws)
+            return False
+
+        okr = bool(rets) and all(delivered(r.value) for r in rets)
         ctx.ob("__anext__ returns what the awaited future delivered", okr, fi, rets[0] if rets else fi.node, construct="_Iterator.__anext__ result")
-    hs = [n for n in cfg.nodes if n.kind == "handler"]
-    okh = False
-    for h in hs:
-        t = h.ast.type
-        names = {chain(x).split(".")[-1] for x in (t.elts if isinstance(t, ast.Tuple) else [t]) if t is not None and chain(x)} if t is not None else set()
-        raised = [cfg.nodes[x].ast for x in cfg.reach({h.id}, skip_labels=("exc",)) if cfg.nodes[x].kind == "raise"]
-        if {"NotObservable", "ObservationCancelled"} <= names and raised and all(r.exc is not None and (chain(r.exc.func if isinstance(r.exc, ast.Call) else r.exc) or "") == "StopAsyncIteration" for r in raised):
-            okh = True
-            ctx.ob("only the end-of-observation signals end the iteration; other errors (NetworkError ...) are raised to the consumer", names == {"NotObservable", "ObservationCancelled"}, fi, h.ast, construct="_Iterator.__anext__ handler (%s)" % ", ".join(sorted(names)))
-    ctx.ob("NotObservable / ObservationCancelled end the `async for` (StopAsyncIteration)", okh, fi, fi.node, construct="_Iterator.__anext__ end of iteration")
-    ai = ctx.prog.func("protocol.ClientObservation.__aiter__")
-    regs_cb = [c for c, b in find("self.register_callback($it.push, $**kw)", ai.node)]
-    regs_eb = [c for c, b in find("self.register_errback($it.push_err, $**kw)", ai.node)]
-    ctx.ob("the iterator is fed by the observation's callbacks (push) and errbacks (push_err)", len(regs_cb) == 1 and len(regs_eb) == 1, ai, ai.node, construct="ClientObservation.__aiter__ wiring")
+    # handlers around the await whose every way out is `raise StopAsyncIteration`
+    ENDS = {"aiocoap.error.NotObservable", "aiocoap.error.ObservationCancelled"}
+    stop_classes = set()
+    pin = None
+    for tr in [t for t in walk_no_nested(fi.node) if isinstance(t, ast.Try) and aw and any(contains(s_, aw[0]) for s_ in t.body)]:
+        for h in tr.handlers:
+            hn = [i for i in cfg.locate(h) if cfg.nodes[i].kind == "handler"]
+            if not hn:
+                continue
+            region = cfg.reach({hn[0]}, skip_labels=("exc",))
+            raised = [cfg.nodes[x].ast for x in region if cfg.nodes[x].kind == "raise"]
+            stops = raised and cfg.exit not in region and all(
+                r.exc is not None and (chain(r.exc.func if isinstance(r.exc, ast.Call) else r.exc) or "") == "StopAsyncIteration" for r in raised)
+            if stops:
+                stop_classes |= set(_handler_classes(prog, fi, h))
+                pin = pin or h
+    if pin is not None:
+        ctx.ob("only the end-of-observation signals end the iteration; other errors (NetworkError ...) are raised to the consumer", stop_classes <= ENDS, fi, pin,
+               construct="_Iterator.__anext__ handler (%s)" % ", ".join(sorted(x.split(".")[-1] for x in stop_classes)))
+    ctx.ob("NotObservable / ObservationCancelled end the `async for` (StopAsyncIteration)", ENDS <= stop_classes, fi, fi.node, construct="_Iterator.__anext__ end of iteration")
+    ai = prog.func("protocol.ClientObservation.__aiter__")
+    its = {}
+    for attr, meth in (("register_callback", "push"), ("register_errback", "push_err")):
+        regs = [c for c in calls_in(ai.node) if isinstance(c.func, ast.Attribute) and c.func.attr == attr and chain(c.func.value) == "self" and c.args]
+        good = []
+        for c in regs:
+            v = resolve_local(ai.node, c.args[0])
+            if isinstance(v, ast.Attribute) and v.attr == meth and isinstance(v.value, ast.Name):
+                good.append(v.value.id)
+        its[attr] = good
+    rets = [r for r in walk_no_nested(ai.node) if isinstance(r, ast.Return)]
+    same = len(its["register_callback"]) == 1 and its["register_callback"] == its["register_errback"] and bool(rets) \
+        and all(isinstance(r.value, ast.Name) and r.value.id == its["register_callback"][0] for r in rets)
+    ctx.ob("the iterator is fed by the observation's callbacks (push) and errbacks (push_err)", same, ai, ai.node, construct="ClientObservation.__aiter__ wiring")
 
 
 @R.clause("C07.h", "a transport failure ends the observation with a network error: the error is fanned out to every outstanding request of that remote, each through its own stopper (shared with C02.e / C02.j)")
@@ -600,3 +1076,12 @@ R.seed("C07.g", F_PRO, "            except (error.NotObservable, error.Observati
 R.seed("C07.g", F_PRO, "        self.register_errback(it.push_err, _suppress_deprecation=True)\n        return it", "        return it", "errors never reach the iterator")
 
 R.seed("C07.h", "aiocoap/tokenmanager.py", "                    lambda request=request, exception=exception: request.add_exception(\n                        exception\n                    )", "                    lambda: request.add_exception(\n                        exception\n                    )", "the observation never ends with the NetworkError; a later unrelated request gets it")
+
+# seeds for the obligations added when the clauses were rephrased over paths / unions of sites
+R.seed("C07.c", F_PRO, "            if next_event.is_last:\n                self.observation.error(error.ObservationCancelled())\n                return\n", "", "keeps waiting for events after the last message")
+R.seed("C07.a", F_PRO, "            if is_recent:\n                self.observation.callback(next_event.message)\n", "            if is_recent:\n                self.observation.callback(next_event.message)\n                self.observation.callback(next_event.message)\n", "notification delivered twice")
+R.seed("C07.d", F_TM, "        if final:\n            self.outgoing_requests.pop(key)\n", "", "token never forgotten")
+R.seed("C07.d", F_TM, "        request.add_response(response, is_last=final)\n", "        request.add_response(response, is_last=final)\n        request.add_response(response, is_last=final)\n", "response handed on twice")
+R.seed("C07.g", F_PRO, "            if self._future.done():\n                self._future = asyncio.get_running_loop().create_future()\n            self._future.set_exception(e)", "            self._future.set_exception(e)", "second error raises InvalidStateError in the errback")
+R.seed("C07.g", F_PRO, "            self._future.set_result(item)", "            asyncio.get_running_loop().create_future().set_result(item)", "item put into a future nobody awaits")
+R.seed("C07.e", F_PRO, "        for c in self.callbacks:\n            c(response)\n", "        for c in self.callbacks:\n            c(self._latest_response and None)\n", "callbacks do not receive the response")
